@@ -1491,6 +1491,13 @@ class Interp:
         raise AnalysisAbort(f"branch on array data in {self.stack[-1] if self.stack else '?'}: {v!r}")
 
     def py_eq(self, a, b):
+        for x, y in ((a, b), (b, a)):
+            if isinstance(x, Obj):
+                r = self.p.find_attr(x.cls, "__eq__")
+                if r and r[0] == "method":           # the class defines its own equality
+                    v = self.call_fn(r[1], [x, y], {})
+                    if v is not NotImplemented:
+                        return self.truth(v)
         if isinstance(a, Obj) and isinstance(b, Obj):
             if a is b:
                 return True
